@@ -120,8 +120,15 @@ func ruleErrState(p *Prog, r *RuleResult) {
 			r.fail(key, p.IPos(ret), "Reader.processBlock returns a non-zero byte count together with an error: Read stores it as `available`, so the next Read delivers the bytes of the failed batch (corrupted or stale) as a success")
 		}
 	}
-	// skipped filter dominates uses of decoded/data of a result
+	// skipped filter dominates uses of decoded/data of a result. The scan of the results may live in a helper of
+	// processBlock: the scan-local obligations are then checked there.
 	s := resolveSide(p, "Reader")
+	parentFn := f
+	if sf, sc := scanFunction(p, s); sf != f && sc != nil {
+		scanResultPropagated(p, r, parentFn, sc)
+		f = sf
+		fname = p.FnName(f)
+	}
 	rst := s.resT.Underlying().(*types.Struct)
 	fieldNamed := func(n string) *types.Var {
 		for i := 0; i < rst.NumFields(); i++ {
@@ -577,6 +584,12 @@ func ruleCksum(p *Prog, r *RuleResult) {
 	}
 	equalEdges := map[edge]bool{}
 	nHash := 0
+	// the verification may have been extracted into a helper of decode (verifyChecksum(data, decoded, checksum)):
+	// then the comparison obligations are checked inside the helper and the must-pass-through on its call.
+	if vh, vcall := verifyHelper(p, s, f, inv, hfs); vh != nil {
+		nHash += cksumViaHelper(p, r, s, f, inv, invOK, dst, errStores, hfs, vh, vcall, headerWidths)
+		goto encodeSide
+	}
 	for _, hf := range hfs {
 		var calls []*ssa.Call
 		eachInstr(f, func(i ssa.Instruction) {
@@ -685,6 +698,7 @@ func ruleCksum(p *Prog, r *RuleResult) {
 		}
 	}
 
+encodeSide:
 	// ---------------- encode ----------------
 	ws := resolveSide(p, "Writer")
 	ef := ws.fn
@@ -849,4 +863,195 @@ func errEdgeReturnsError(p *Prog, r *RuleResult, f *ssa.Function, errField *type
 	if n == 0 {
 		r.fail(fname+"#task-error-test", p.Pos(f.Pos()), "processBlock never tests the error of a task result")
 	}
+}
+
+// verifyHelper: a helper of decode, called after Inverse, that contains the Hash calls of the hasher fields (none of
+// which is called in decode itself).
+func verifyHelper(p *Prog, s *taskSide, f *ssa.Function, inv *ssa.Call, hfs []*types.Var) (*ssa.Function, *ssa.Call) {
+	inDecode := false
+	eachInstr(f, func(i ssa.Instruction) {
+		for _, hf := range hfs {
+			if hashCallOn(i, hf) != nil {
+				inDecode = true
+			}
+		}
+	})
+	if inDecode {
+		return nil, nil
+	}
+	for _, h := range p.helperClosure(f) {
+		has := false
+		eachInstr(h, func(i ssa.Instruction) {
+			for _, hf := range hfs {
+				if hashCallOn(i, hf) != nil {
+					has = true
+				}
+			}
+		})
+		if !has {
+			continue
+		}
+		var call *ssa.Call
+		eachInstr(f, func(i ssa.Instruction) {
+			if c, ok := i.(*ssa.Call); ok && c.Call.StaticCallee() == h && instrReaches(inv, c) {
+				call = c
+			}
+		})
+		if call != nil {
+			return h, call
+		}
+	}
+	return nil, nil
+}
+
+func cksumViaHelper(p *Prog, r *RuleResult, s *taskSide, f *ssa.Function, inv *ssa.Call, invOK *ssa.BasicBlock, dst ssa.Value,
+	errStores map[ssa.Instruction]bool, hfs []*types.Var, vh *ssa.Function, vcall *ssa.Call, headerWidths func(ssa.Value) map[int64]bool) int {
+	fname, vname := p.FnName(f), p.FnName(vh)
+	nHash := 0
+	// bind parameters
+	arg := func(prm ssa.Value) ssa.Value {
+		for i, q := range vh.Params {
+			if ssa.Value(q) == prm && i < len(vcall.Call.Args) {
+				return vcall.Call.Args[i]
+			}
+		}
+		return nil
+	}
+	baseOf := func(v ssa.Value) ssa.Value {
+		for {
+			if sl, ok := v.(*ssa.Slice); ok {
+				v = sl.X
+				continue
+			}
+			return v
+		}
+	}
+	helperEqual := map[edge]bool{}
+	for _, hf := range hfs {
+		key := fmt.Sprintf("%s#verify.%s", vname, hf.Name())
+		var calls []*ssa.Call
+		eachInstr(vh, func(i ssa.Instruction) {
+			if c := hashCallOn(i, hf); c != nil {
+				calls = append(calls, c)
+			}
+		})
+		if len(calls) == 0 {
+			r.fail(key, p.IPos(vcall), fmt.Sprintf("the decoded block is never hashed with %s: damage is not detected", hf.Name()))
+			continue
+		}
+		for _, hc := range calls {
+			nHash++
+			bits := typeBits(hc.Type())
+			dataPrm := baseOf(hc.Call.Args[len(hc.Call.Args)-1])
+			a := arg(dataPrm)
+			if a == nil || baseOf(a) != baseOf(dst) {
+				r.fail(key+"#data", p.IPos(hc), "the verification hash is not computed over the buffer the inverse transform wrote to")
+				continue
+			}
+			found := false
+			for _, ref := range *hc.Referrers() {
+				bo, ok := ref.(*ssa.BinOp)
+				if !ok || (bo.Op != token.EQL && bo.Op != token.NEQ) {
+					continue
+				}
+				other := bo.Y
+				if bo.Y == ssa.Value(hc) {
+					other = bo.X
+				}
+				hv := other
+				if cv, ok := hv.(*ssa.Convert); ok && typeBits(cv.Type()) == bits {
+					hv = cv.X
+				}
+				ha := arg(hv)
+				if ha == nil {
+					continue
+				}
+				ws := headerWidths(ha)
+				if ws == nil || !ws[int64(bits)] {
+					continue
+				}
+				for _, rr := range *bo.Referrers() {
+					ifi, ok := rr.(*ssa.If)
+					if !ok {
+						continue
+					}
+					atom, pos := condAtom(ifi.Cond)
+					if atom != ssa.Value(bo) {
+						continue
+					}
+					eqSucc := succFor(pos, bo.Op == token.EQL)
+					mism := ifi.Block().Succs[1-eqSucc]
+					okErr := true
+					for rb := range reach(mism, nil, nil) {
+						if ret, ok := rb.Instrs[len(rb.Instrs)-1].(*ssa.Return); ok && rb != vh.Recover && retMayBeNil(ret, len(ret.Results)-1) {
+							okErr = false
+						}
+					}
+					found = true
+					if okErr {
+						helperEqual[edge{ifi.Block(), eqSucc}] = true
+						r.ok(fmt.Sprintf("%s: %d-bit hash compared un-narrowed with the %d-bit header field; a mismatch returns an error", key, bits, bits), p.IPos(ifi))
+					} else {
+						r.fail(key+"#mismatch-edge", p.IPos(ifi), "a checksum mismatch does not always make the verification helper return an error")
+					}
+				}
+			}
+			if !found {
+				r.fail(key+"#compare", p.IPos(hc), fmt.Sprintf("the %d-bit hash of the decoded block is not compared at full width with the value read from the block header (narrowed or missing comparison)", bits))
+			}
+		}
+	}
+	// inside the helper: a nil return is reachable only through an equal edge or with the hasher nil
+	for _, hf := range hfs {
+		cut := map[edge]bool{}
+		for e := range helperEqual {
+			cut[e] = true
+		}
+		for _, b := range vh.Blocks {
+			if ifi := blockIf(b); ifi != nil {
+				if x, succ, ok := nilTest(ifi.Cond); ok && fieldVarOfLoad(x) == hf {
+					cut[edge{b, 1 - succ}] = true
+				}
+			}
+		}
+		bad := false
+		for b := range reach(vh.Blocks[0], cut, nil) {
+			if ret, ok := b.Instrs[len(b.Instrs)-1].(*ssa.Return); ok && b != vh.Recover && retMayBeNil(ret, len(ret.Results)-1) {
+				bad = true
+				r.fail(fmt.Sprintf("%s#bypass.%s", vname, hf.Name()), p.IPos(ret), fmt.Sprintf("the verification helper can report success without passing the %s comparison although the hasher may be set", hf.Name()))
+				break
+			}
+		}
+		if !bad {
+			r.ok(fmt.Sprintf("%s: success is returned only after the %s comparison or with the hasher nil", vname, hf.Name()), p.Pos(vh.Pos()))
+		}
+	}
+	// in decode: the helper's verdict cannot be bypassed and its error is stored
+	ifi, succ, ok := errEdgeOf(vcall)
+	if !ok {
+		r.fail(fname+"#verify-result", p.IPos(vcall), "the result of the checksum verification is not tested")
+		return nHash
+	}
+	if len(errStores) == 0 || !allPathsThrough(f, ifi.Block().Succs[succ], 0, errStores) {
+		r.fail(fname+"#verify-result", p.IPos(ifi), "a failed checksum verification does not always set the task error")
+	} else {
+		r.ok(fname+": a failed verification always sets the task error", p.IPos(ifi))
+	}
+	cut := map[edge]bool{{ifi.Block(), 1 - succ}: true}
+	avoid := map[*ssa.BasicBlock]bool{}
+	for st := range errStores {
+		avoid[st.Block()] = true
+	}
+	bad := false
+	for b := range reach(invOK, cut, avoid) {
+		if ret, ok := b.Instrs[len(b.Instrs)-1].(*ssa.Return); ok && b != f.Recover {
+			bad = true
+			r.fail(fname+"#bypass", p.IPos(ret), "a clean exit of decode after the inverse transform is reachable without passing the checksum verification")
+			break
+		}
+	}
+	if !bad {
+		r.ok(fname+": every clean exit after Inverse passes the verification helper", p.IPos(vcall))
+	}
+	return nHash
 }
